@@ -237,8 +237,11 @@ def StageReference(dataReference,  # type: experiment.model.graph.DataReference
                 archive_links = set(os.path.normpath(f.name) for f in members if f.issym())
 
                 def through_archive_link(path):
+                    # VV: a link target may be absolute and spell the destination itself (`<dest>/b/../x`), look at
+                    # where each prefix of the path ends up relative to the destination
                     parts = path.split('/')
-                    return any(os.path.normpath('/'.join(parts[:i])) in archive_links for i in range(1, len(parts)))
+                    return any(os.path.relpath(os.path.realpath(os.path.join(target, '/'.join(parts[:i]))), target)
+                               in archive_links for i in range(1, len(parts)))
 
                 for f in members:
                     if through_archive_link(f.name):
